@@ -17,7 +17,7 @@ from typing import Any, Optional
 import torch
 from pulser.backend import EmulationConfig, Observable, Results, State
 
-from emu_base import DEVICE_COUNT, SequenceData, get_max_rss
+from emu_base import DEVICE_COUNT, SequenceData, get_max_rss, aggregation_kwargs
 from emu_base.math.brents_root_finding import BrentsRootFinder
 from emu_base.utils import deallocate_tensor
 
@@ -52,7 +52,9 @@ class Statistics(Observable):
         data: list[float],
         timestep_count: int,
     ):
-        super().__init__(evaluation_times=evaluation_times)
+        super().__init__(
+            evaluation_times=evaluation_times, **aggregation_kwargs("SKIP")
+        )
         self.data = data
         self.timestep_count = timestep_count
 
